@@ -1,36 +1,56 @@
 /-
 C32 — the TPL scanner tokenises like the XGo scanner.
 
-Statement (full strength), over the scanner model M1 with dialects `tpl` (tpl/scanner/scanner.go)
-and `xgo` (scanner/scanner.go):
+Over the scanner model M1 with dialects `tpl` (tpl/scanner/scanner.go) and `xgo`
+(scanner/scanner.go), FULL on the decidable domain `sharedLexemesOnly` (Model/ScanDomain.lean):
 
-    theorem tpl_eq_xgo (U : UCls) (src : Array UInt8) (comments noSemis : Bool) :
-        sharedLexemesOnly U comments noSemis src = true →
-        agree32 (scan ⟨.tpl, comments, noSemis, U⟩ src) (scan ⟨.xgo, comments, noSemis, U⟩ src) = true
+    theorem C32_tpl_eq_xgo : sharedLexemesOnly U comments noSemis src = true →
+        ToksRel (scan ⟨.tpl, …⟩ src).toks (scan ⟨.xgo, …⟩ src).toks ∧ errs equal ∧ both `done`
 
-(`agree32`: both runs finish and return the same token boundaries (offsets), kinds (by `String()`),
-literals and inserted semicolons; `sharedLexemesOnly`: Model/ScanDomain.lean).
+for every byte string, every classification `U` and every scanning mode: the two runs return
+the same lexemes — same offsets and ends (token boundaries), same literals, the same kinds by
+`String()` (the two token packages number their tokens differently), the same inserted
+semicolons, both or neither EOF — and even the same error-handler calls; `C32_agree` restates
+it with the comparison `agree32` that the harness evaluates on the real scanners.
 
-PARTIAL.  Proved here, over the tables REGENERATED on every run:
-  * `C32_switch_agrees_by_spelling`: for every first byte except `*`, the decision tries of the
-    two operator switches have the same shape, the same `insertSemi` and parenthesis effects and
-    leaves with the same spelling (`String()`); `*` differs only by TPL's `**`; TPL has two more
-    cases, `~`… none any more (`~` is scanned by both since the fix), `@`;
-  * `C32_literal_kinds_same_name`: the literal classes, COMMENT, EOF, ILLEGAL, `;`, `.`, `...` have
-    the same `String()` in both packages;
-  * the differences that define the domain are real (witnesses): keywords, `**`, CR in a
-    general comment, `c"…"`;
-  * the UNIT offset (fixed in both scanners by 585e2ea) agrees: `C32_unit_offset_witness`.
-The general statement is NOT proved in Lean; it is checked by the differential run
-(harness/cmd/c32) on the real scanners for every generated input, with the model's domain
-decision and comparison cross-checked.
+The domain is evaluated on the xgo model's own run in the compared mode (`shRunOK`): no ILLEGAL
+token, no keyword (TPL has none and inserts `;` after every identifier), no `c"…"`/`py"…"`, no
+`*` directly followed by `*` (TPL: `**`), and every comment (returned or skipped) free of CRs
+(the scanners strip them differently), not `#/…`/`#*…` (an XGo quirk) and not continuing with
+"line " after two bytes (only XGo interprets line directives, also `# line …`).  Each exclusion is
+a real difference (witnesses below).
+
+Proof: `Lemmas/ScanC32a…e.lean`: from the same scanner state one pass through `Scan` of the two
+dialects ends in the same state and returns related tokens (`step32`: comment scanners
+`commentXG_eq_tpl`/`commentXG_eq_sharp`, operator tries compared by spelling over the regenerated
+tables `switch32`, `walk32`), so the loops run in lockstep (`lockstep32`); on top of C15.
 -/
-import GopModel.Model.ScanDomain
+import GopModel.Lemmas.ScanC32e
 namespace GopModel.Scan.C32
 open GopModel.Generated GopModel.Scan
 
 def noU : UCls := { isLetter := fun _ => false, isDigit := fun _ => false }
 def cfg (d : Dialect) (comments : Bool) : Cfg := { d := d, comments := comments, noSemis := false, U := noU }
+
+/-- **C32** (on the model, FULL on the domain) -/
+theorem C32_tpl_eq_xgo (U : UCls) (comments noSemis : Bool) (src : Array UInt8)
+    (h : sharedLexemesOnly U comments noSemis src = true) :
+    ToksRel (scan { d := .tpl, comments := comments, noSemis := noSemis, U := U } src).toks
+      (scan { d := .xgo, comments := comments, noSemis := noSemis, U := U } src).toks ∧
+    (scan { d := .tpl, comments := comments, noSemis := noSemis, U := U } src).errs =
+      (scan { d := .xgo, comments := comments, noSemis := noSemis, U := U } src).errs ∧
+    (scan { d := .tpl, comments := comments, noSemis := noSemis, U := U } src).status = .done ∧
+    (scan { d := .xgo, comments := comments, noSemis := noSemis, U := U } src).status = .done :=
+  scan_tpl_eq_xgo U comments noSemis src h
+
+/-- the same with the comparison the harness evaluates on the real scanners -/
+theorem C32_agree (U : UCls) (comments noSemis : Bool) (src : Array UInt8)
+    (h : sharedLexemesOnly U comments noSemis src = true) :
+    agree32 (scan { d := .tpl, comments := comments, noSemis := noSemis, U := U } src)
+      (scan { d := .xgo, comments := comments, noSemis := noSemis, U := U } src) = true := by
+  obtain ⟨h1, _, h3, h4⟩ := C32_tpl_eq_xgo U comments noSemis src h
+  unfold agree32
+  simp [h3, h4, h1.sameToks]
 
 /-- two tries have the same shape, flags, and leaves with the same spelling -/
 def sameTrie : Trie → Trie → Bool
@@ -94,6 +114,15 @@ theorem C32_exclusions_are_differences :
     (agree32 (scan (cfg .tpl true) srcCRComment) (scan (cfg .xgo true) srcCRComment) = false ∧
       sharedLexemesOnly noU true false srcCRComment = false) := by
   decide +kernel
+
+/-- `# line f:0` at the beginning of a line: XGo takes it for a line directive and reports
+"invalid line number", TPL does not (same tokens); outside the domain -/
+def srcLineDir : Array UInt8 := #[0x23, 0x20, 0x6C, 0x69, 0x6E, 0x65, 0x20, 0x66, 0x3A, 0x30]
+
+theorem C32_line_directive_differs :
+    agree32 (scan (cfg .tpl true) srcLineDir) (scan (cfg .xgo true) srcLineDir) = true ∧
+    (scan (cfg .tpl true) srcLineDir).errs = [] ∧ (scan (cfg .xgo true) srcLineDir).errs.length = 1 ∧
+    sharedLexemesOnly noU true false srcLineDir = false := by decide +kernel
 
 /-- number + unit followed by white space: both scanners report the unit right behind the number -/
 theorem C32_unit_offset_witness :
